@@ -126,6 +126,7 @@ class FreeOpts:
         self.trail_blanks = 0    # percent of physical lines that get 1-8 trailing blanks (blank lines: blanks only)
         self.big_indent = 0      # percent of statements indented by 40-70 columns (line length stays <= 132)
         self.excl = set()
+        self.eol_variants = False   # draw CR LF line ends / a missing final line terminator for .text
         self.names = None        # set of lower-case identifiers that are names (others = keywords)
         for k, v in kw.items():
             assert hasattr(self, k), k
@@ -141,10 +142,12 @@ class Layout:
         self.features = set()
         self.excluded = {}
         self.name_map = {}
+        self.eol = "\n"          # line terminator of .text ('\r\n' when the engine draws it)
+        self.final_nl = True     # whether .text ends with a line terminator
 
     @property
     def text(self):
-        return "\n".join(self.lines) + "\n"
+        return self.eol.join(self.lines) + (self.eol if self.final_nl else "")
 
 
 def gen_stmt_text(st):
@@ -377,6 +380,14 @@ def free_layout(flat, rnd, opts):
 
 
 def _trailing_blanks(r, lay, opts):
+    if getattr(opts, "eol_variants", False):
+        # file-level variants every reader must be indifferent to: CR LF line ends, no terminator after the last line
+        lay.eol = r.pick(["\n", "\n", "\r\n"])
+        lay.final_nl = not r.chance(25)
+        if lay.eol != "\n":
+            lay.features.add("crlf")
+        if not lay.final_nl:
+            lay.features.add("no_final_newline")
     if not getattr(opts, "trail_blanks", 0):
         return
     for i in range(len(lay.lines)):
@@ -418,6 +429,7 @@ class FixedOpts:
         self.allow_amp_end = False   # only when the caller sets the source form explicitly (a line ending in '&'
         #                              makes the auto-detector choose free form)
         self.excl = set()
+        self.eol_variants = False
         self.names = None
         for k, v in kw.items():
             assert hasattr(self, k), k
